@@ -60,7 +60,9 @@ static bool is_sparse_region(const tar_iterator_t *tar, sqfs_u64 *count)
 			sqfs_u64 diff = tar->offset - it->offset;
 
 			if (diff < it->count) {
-				*count = it->count - diff;
+				/* never hand out more than the file size */
+				if ((it->count - diff) < *count)
+					*count = it->count - diff;
 				return false;
 			}
 		}
